@@ -3,7 +3,9 @@ streams (harness arguments per tier) and the classification of each case."""
 
 # Which repairs of the pinned tree the model follows (must match the fix: commits in /repo;
 # known_findings.json records them as `fixed`).
-FIXES = {"f1": True, "f2": True, "f3": True, "f4": True, "f5": True, "f2b": True, "f8": True, "f10": True, "f14": True, "f12": True}
+FIXES = {"f1": True, "f2": True, "f3": True, "f4": True, "f5": True, "f2b": True, "f8": True, "f10": True, "f14": True, "f12": True,
+         # F29: `evaluate`'s private copy of parse_csv_row (ReadFieldResult::End, field buffer) - the model follows the repair
+         "f29": True}
 
 
 def pflags(extra):
@@ -702,6 +704,32 @@ def cli_classifier(inner, prefixes):
     return classify
 
 
+def evalsplit_classify(line, impl, mobs, extra):
+    """Stream `evalsplit` (C19, last clause): the real `split`, `evaluate` and `tokenize -O wakati|detail` programs as processes
+    against Model/EvalSplit.lean.  Property-level failures: `split` does not partition the corpus (theorem split_partition), a
+    program fails on the tokenizer's own output (evaluate_self_perfect_fixed), a program panics where the model returns."""
+    flags = pflags(extra)
+    t = line.split()
+    verb = t[2] if len(t) > 2 else "?"
+    st = impl.split()[0] if impl else "?"
+    mst = mobs.split()[0] if mobs else "?"
+    tags = ["prog=" + {"SPLIT": "split", "EVAL": "evaluate", "WAKATI": "tokenize-wakati", "DETAIL": "tokenize-detail"}.get(verb, verb), "impl=" + st]
+    if "KIND" in flags:
+        tags.append("kind=" + flags["KIND"])
+    info = {"tags": tags, "nontrivial": st == "ok"}
+    if verb == "SPLIT" and flags.get("PART") == "false":
+        info["prop_fail"] = "split-does-not-partition-the-corpus"
+        info["why"] = "the three files written by the real `split` program are not a partition of the parsed corpus with the computed sizes"
+    elif verb == "EVAL" and flags.get("KIND") == "self" and st in ("panic", "err") and mst == "ok":
+        info["prop_fail"] = "evaluate-fails-on-tokenizer-output"
+        info["why"] = ("the real `evaluate` program " + ("panics" if st == "panic" else "exits with an error") + " on the MeCab-style output "
+                       "that the real `tokenize` program printed for the same dictionary and options")
+    elif st == "panic" and mst != "panic":
+        info["prop_fail"] = "corpus-program-panics"
+        info["why"] = "a program of the corpus tool chain (" + tags[0][5:] + ") panicked where the model returns a value or an error"
+    return info
+
+
 def mecab_example_classify(line, impl, mobs, extra):
     """`conn <id>.mecab<k>` lines of the cli stream: the cost table of the dictionary written by the real
     examples/mecab_smalldic program against the raw-connector model's table of the library's generated files."""
@@ -712,6 +740,13 @@ def mecab_example_classify(line, impl, mobs, extra):
         info["prop_fail"] = "mecab-example-dictionary-costs-differ"
         info["why"] = "the dictionary compiled by examples/mecab_smalldic has connection costs other than those defined by the generated bigram files"
     return info
+
+
+def c19_streams(tier, seed):
+    base = with_cli(simple_streams("corpus", 1000, 30000, corpus_classify), {"corpus": corpus_classify},
+                    ("tokenize-output-mecab", "tokenize-status", "train-status"), 12, 400)
+    # "... so tokenizer output can be fed to train, split and evaluate": the real split / evaluate / tokenize -O wakati|detail
+    return list(base(tier, seed)) + [(["evalsplit", str(seed), "150" if tier == "quick" else "3000"], evalsplit_classify, {"cli": True})]
 
 
 def with_cli(streams, inner, prefixes, nq, nt):
@@ -1041,15 +1076,22 @@ PROPS = {
         "assumptions": [],
     },
     "C19": {
-        "modules": ["Vibrato.Props.C19"],
+        "modules": ["Vibrato.Props.C19", "Vibrato.Props.C19cli"],
         "theorems": ["Vibrato.Corpus.corpus_roundtrip", "Vibrato.Corpus.corpus_roundtrip_pinned",
                      "Vibrato.Corpus.empty_sentences_dropped", "Vibrato.Corpus.trailing_tokens_dropped",
                      "Vibrato.Corpus.parse_result_wellformed", "Vibrato.Corpus.parse_never_panics",
                      "Vibrato.Corpus.write_parse_idempotent", "Vibrato.Corpus.write_parse_idempotent_of_no_crcrlf",
                      "Vibrato.Corpus.malformed_line_err", "Vibrato.Corpus.invalid_utf8_err",
                      "Vibrato.Corpus.mecabOutput_eq_write", "Vibrato.Corpus.tokenizer_output_parses",
-                     "Vibrato.Corpus.tokenizer_outputs_parse"],
-        "streams": with_cli(simple_streams("corpus", 1000, 30000, corpus_classify), {"corpus": corpus_classify}, ("tokenize-output-mecab", "tokenize-status", "train-status"), 12, 400),
+                     "Vibrato.Corpus.tokenizer_outputs_parse",
+                     # the programs split / evaluate / tokenize -O wakati|detail (Model/EvalSplit.lean)
+                     "Vibrato.EvalSplit.split_partition", "Vibrato.EvalSplit.split_rejects_oversize", "Vibrato.EvalSplit.split_never_panics",
+                     "Vibrato.EvalSplit.evaluate_counts_spec", "Vibrato.EvalSplit.example_counts_meaning",
+                     "Vibrato.EvalSplit.evaluate_self_perfect", "Vibrato.EvalSplit.evaluate_self_perfect_sentences",
+                     "Vibrato.EvalSplit.evaluate_self_perfect_fixed", "Vibrato.EvalSplit.evaluate_panics_on_long_field",
+                     "Vibrato.EvalSplit.evaluate_panics_on_empty_feature", "Vibrato.EvalSplit.wakati_split_roundtrip",
+                     "Vibrato.EvalSplit.detail_line_fields"],
+        "streams": c19_streams,
         "rule": "three generators: byte soup over a CR/LF/TAB/EOS/UTF-8-edge alphabet (20%), structured corpora with "
                 "varied terminators and rare garbage lines (50%), real tokenizer output rendered as `tokenize -O mecab` "
                 "prints it (30%); non-trivial = at least one example parsed, or a tokenizer case",
